@@ -527,6 +527,10 @@ func (s *State) Import(state types.AppState, version string) error {
 		}
 	}
 
+	for _, halt := range state.HaltBlocks {
+		s.Halts.AddHaltBlock(halt.Height, halt.CandidateKey)
+	}
+
 	return nil
 }
 
